@@ -23,9 +23,14 @@ func init() {
 					cs = append(cs, mkCase("", "c04", "HLink", cfg, op, 2, 2, 2), mkCase("", "c04", "HLink", cfg, op, 2, 3, 2), mkCase("", "c04", "HLink", cfg, op, 2, 2, 3))
 				}
 			}
+			// long chains around the kernel's limit of 40 links (and the implementation's own constant)
+			cs = append(cs, mkCase("", "c04", "HChain", cfg, 30, 34), mkCase("", "c04", "HChain", cfg, 37, 42))
+			if tier == "thorough" {
+				cs = append(cs, mkCase("", "c04", "HChain", cfg, 1, 29), mkCase("", "c04", "HChain", cfg, 43, 66))
+			}
 			return []group{{Tags: "", Pkgs: []string{"c04"}, Cases: cs}}
 		},
-		Reach:       []string{"query"},
+		Reach:       []string{"query", "chain"},
 		Explanation: "Differential bounded symbolic execution of MemFS' path walk (searchNode in its three modes, PathIterator.ReplacePart, Symlink, Readlink, EvalSymlinks and every caller's choice of mode) against posixref's kernel path walk and Go's EvalSymlinks algorithm over the model: base tree {a/, a/a, b}; one or two symbolic links (/w/c, /w/a/c) whose TARGETS ARE SYMBOLIC STRINGS (every byte value except NUL), so sibling, parent-relative, absolute, self-referential, cyclic, dangling and every other target shape of that length is covered without listing shapes; 15 operations (Stat, Lstat, ReadFile, ReadDir, Chmod, Truncate, Mkdir below, EvalSymlinks, Readlink, Remove, Rename, Lchown, Link, Open with O_CREATE, Rename onto the link) on six query paths through the link names; errno, result and the state of every object must equal the model. The reference worlds are given the lexically cleaned target (the property grants cleaning). Natively every path is replayed against the kernel inside a chroot(2) scratch directory (arbitrary targets cannot escape); model/kernel disagreement = ORACLE mismatch (exit 3).",
 		Bounds: func(tier string) map[string]any {
 			return map[string]any{"links": "1 or 2", "target_length": map[string]string{"quick": "1..3 (one link), up to 2+1 (two links)", "thorough": "1..4 (one link), up to 3+2 (two links)"}[tier], "query_paths": 6, "outside": "longer targets, chains near the kernel limit of 40 (the code allows 64), query paths containing '..', more than two links"}
